@@ -297,6 +297,23 @@ impl World {
         self.node.on_reorg(orphaned);
     }
 
+    /// A reorg whose new branch need not have more work (see `ChainState::reorg_any`).
+    pub fn reorg_any(&self, depth: usize, blocks: &[Vec<TxRef>], salt: u64) {
+        let resolved: Vec<Vec<Transaction>> = blocks.iter().map(|b| b.iter().map(|r| self.resolve(r, salt)).collect()).collect();
+        let mut orphaned = Vec::new();
+        {
+            let mut cs = lock(&self.chain);
+            let n = cs.active.len();
+            for bh in &cs.active[n - depth..] {
+                orphaned.extend(cs.blocks[bh].block.txdata.iter().skip(1).cloned());
+            }
+            cs.reorg_any(depth, resolved.clone());
+        }
+        let mined: Vec<Txid> = resolved.iter().flatten().map(|t| t.compute_txid()).collect();
+        self.node.on_block_mined(&mined);
+        self.node.on_reorg(orphaned);
+    }
+
     pub fn set_script(&self, txid: Txid, script: Option<(i32, bool)>) {
         let mut st = lock(&self.node.state);
         match script {
